@@ -20,8 +20,8 @@ OPERATORS = ["#", "?", "@", "$", ";", ",", ":", ".", "..", "->", "=>", "~>", "("
 KEYWORDS = ["true", "on", "false", "off", "null", "none", "pub", "fn", "if", "else", "match", "for", "while",
             "loop", "break", "continue", "return", "import", "as", "from", "let", "in", "type", "try", "catch",
             "new", "spawn", "event", "impl", "with", "templ", "trigger", "_"]
-IDENTS = ["a", "foo", "x1", "_a", "truex", "fn_", "F", "iff", "on_", "__"]
-NUMBERS = ["0", "7", "42", "1_000", "1__0", "1_", "3.14", "1_0.2_5", "0.0", "5f", "1_0f", "10.5", "007"]
+IDENTS = ["a", "foo", "x1", "_a", "truex", "fn_", "F", "iff", "on_", "__", "v8", "v9", "x0123456789", "area_1980", "for9", "a8b", "Z_9_", "k7", "n00"]
+NUMBERS = ["0", "7", "42", "1_000", "1__0", "1_", "3.14", "1_0.2_5", "0.0", "5f", "1_0f", "10.5", "007", "89", "9876543210", "8.9", "9f", "0.08"]
 STRINGS = ['""', "''", '"abc"', "'a b'", '"\\n\\t\\r\\b\\\\"', '"\\""', "'\\''", '"\\x41"', '"\\u00e9"',
            '"\\U0001F600"', '"\\101"', '"é∑"', '"line1\nline2"', "'\"'", '"\\x7f\\000"', '"\\UFFFFFFFF"',
            '"\\ud800"', '"//not a comment"', '"/* nor this */"']
